@@ -746,3 +746,30 @@ def decision_table(fn, ignore_calls=(), effect_calls=(), max_paths=40000, start_
 
     walk(start_block, {}, [], [], frozenset())
     return rows, complete[0]
+
+
+ITER_SOURCES = (r"IntoIterator>::into_iter$", r"<impl \[.*\]>::iter(_mut)?$", r"Vec::<.*>::(iter|iter_mut|drain)$", r"HashMap::<.*>::(iter|iter_mut|keys|values|drain|into_keys|into_values)$",
+                r"BTreeMap::<.*>::(iter|keys|values|range)$", r"HashSet::<.*>::(iter|drain)$", r"VecDeque::<.*>::(iter|drain)$")
+
+
+def iter_chain(fn, operand, max_hops=16):
+    """[(method name, call term)] from the consumer side back to the iterator's source: follows argument 0 through
+    Iterator/IntoIterator method calls (`a.iter().filter(f).take(n)` seen from the take result gives [take, filter, iter]).
+    `into_iter` on something that already is an iterator (the for-loop's identity call) is walked through.  The last
+    element is the source: a collection's iter()/into_iter()/drain(), or the first call that is not an iterator method."""
+    out = []
+    cur = src_of_operand(fn, operand)
+    while cur.kind == "call" and len(out) < max_hops:
+        c = callee(cur.term)
+        name = c.rsplit("::", 1)[-1].split("<")[0]
+        out.append((name, cur.term))
+        if not cur.term["args"]:
+            break
+        if is_callee(cur.term, r"IntoIterator>::into_iter$"):
+            # `impl<I: Iterator> IntoIterator for I` is the identity; any other impl is a collection = the source
+            if not (cur.term.get("res") or "").startswith("<I as "):
+                break
+        elif is_callee(cur.term, *ITER_SOURCES) or not is_callee(cur.term, r"Iterator>?::\w+(::<.*>)?$"):
+            break
+        cur = src_of_operand(fn, cur.term["args"][0])
+    return out
